@@ -168,6 +168,7 @@ func ResolveAnchors(p *Prog) *Anchors {
 		a.Missing = append(a.Missing, "execext.RunCommand")
 	}
 
+	var depRangers []*FuncBody
 	for _, fb := range p.BodiesIn(PkgTask) {
 		if fb.Decl == nil {
 			continue
@@ -253,6 +254,9 @@ func ResolveAnchors(p *Prog) *Anchors {
 		if rangesDeps && callsRunTask && a.DepRunner == nil {
 			a.DepRunner = fb
 		}
+		if rangesDeps && !callsRunTask {
+			depRangers = append(depRangers, fb)
+		}
 		if idxRead && idxWrite && a.Dedup == nil {
 			a.Dedup = fb
 		}
@@ -299,6 +303,17 @@ func ResolveAnchors(p *Prog) *Anchors {
 			a.Acquire = fb
 		case ops[0] == "recv" && a.Release == nil:
 			a.Release = fb
+		}
+	}
+	if a.DepRunner == nil && a.RunTask != nil {
+		// the RunTask call of the dependency runner may live in helpers (a method that returns the goroutine's function, a
+		// method that runs one dependency): a function that ranges over the deps and reaches RunTask through package helpers
+		for _, fb := range depRangers {
+			reach := p.ReachableFrom([]*FuncBody{fb}, func(x *FuncBody) bool { return x == a.RunTask })
+			if reach[a.RunTask] && fb != a.RunTask {
+				a.DepRunner = fb
+				break
+			}
 		}
 	}
 	a.need("command runner (function passing an ast.Cmd's Cmd to execext.RunCommand)", a.CmdRunner)
@@ -463,4 +478,86 @@ func (a *Anchors) returnedFuncOps(fb *FuncBody) [][]string {
 		}
 	}
 	return out
+}
+
+
+// runTaskWrapper: a declared function of package task every return of which yields, as its error, the result of RunTask
+// or of another such wrapper (a helper that "runs one dependency / one call").
+func (a *Anchors) runTaskWrapper(p *Prog, fb *FuncBody, depth int) bool {
+	if fb == nil || fb.Decl == nil || fb == a.RunTask || depth < 0 || fb.Pkg.PkgPath != PkgTask {
+		return false
+	}
+	info := fb.Info()
+	rets := returnsOf(fb.Body)
+	if len(rets) == 0 {
+		return false
+	}
+	for _, r := range rets {
+		res := errResult(r)
+		call, ok := ast.Unparen(res).(*ast.CallExpr)
+		if res == nil || !ok {
+			return false
+		}
+		fn, _ := callee(info, call).(*types.Func)
+		if fn == nil {
+			return false
+		}
+		if a.is(fn, a.RunTask) {
+			continue
+		}
+		if d := p.DeclOf(fn); d != nil && a.runTaskWrapper(p, d, depth-1) {
+			continue
+		}
+		return false
+	}
+	return true
+}
+
+// ctxReachesRunTask: the context variable v of fb is what RunTask receives, directly or through package helpers that pass
+// their own context parameter on.
+func (a *Anchors) ctxReachesRunTask(p *Prog, fb *FuncBody, v *types.Var, depth int) bool {
+	if fb == nil || v == nil || depth < 0 {
+		return false
+	}
+	info := fb.Info()
+	found := false
+	inspectDeep(fb.Body, func(n ast.Node) bool {
+		call, ok := n.(*ast.CallExpr)
+		if !ok || found {
+			return true
+		}
+		fn, _ := callee(info, call).(*types.Func)
+		if fn == nil {
+			return true
+		}
+		if a.is(fn, a.RunTask) {
+			if len(call.Args) >= 1 && varOf(info, call.Args[0]) == v {
+				found = true
+			}
+			return true
+		}
+		h := p.DeclOf(fn)
+		if h == nil || h.Pkg.PkgPath != PkgTask || h.Type.Params == nil {
+			return true
+		}
+		for i, arg := range call.Args {
+			if varOf(info, arg) != v {
+				continue
+			}
+			// parameter i of h
+			k := 0
+			for _, fld := range h.Type.Params.List {
+				for _, id := range fld.Names {
+					if k == i {
+						if pv, ok := h.Info().Defs[id].(*types.Var); ok && a.ctxReachesRunTask(p, h, pv, depth-1) {
+							found = true
+						}
+					}
+					k++
+				}
+			}
+		}
+		return true
+	})
+	return found
 }
